@@ -128,6 +128,11 @@ func (c *quotaCase) build() *quotaPop {
 			if derr != nil {
 				panic(derr)
 			}
+			// every organism its own weights: an unmodified copy of a champion can be told from everything else
+			for gi, gene := range g.Genes {
+				gene.Link.ConnectionWeight = float64(gid) + 0.25*float64(gi)
+				gene.MutationNum = gene.Link.ConnectionWeight
+			}
 			org, _ := genetics.NewOrganism(float64(s.Fit[i]), g, 1)
 			org.Species = sp
 			sp.VerifAddOrganism(org)
@@ -177,6 +182,7 @@ type quotaStats struct {
 	infoSample                 string
 	lossSeen, makeupSeen       int
 	lastRealLost               string
+	champChecked               int // species with quota > 5 whose champion copy was looked for after a whole epoch
 }
 
 func (st *quotaStats) note(kind, msg string) {
@@ -455,6 +461,29 @@ func (c *quotaCase) epoch(st *quotaStats, seed int64) (bad string) {
 	if p := vhu.Guard(func() { err = ex.VerifPrepare(ctx, 1, qp.pop) }); p != "" || err != nil {
 		return fmt.Sprintf("prepareForReproduction failed: %v %s", err, p)
 	}
+	// C10: what the preparation phase left: per species its quota and the genomes of its fittest organism(s) (with tied
+	// fitness any of them is "the fittest")
+	type champs struct {
+		id, quota int
+		sigs      map[string]bool
+	}
+	var want []champs
+	for _, sp := range qp.pop.Species {
+		if sp.ExpectedOffspring <= 5 || len(sp.Organisms) == 0 {
+			continue
+		}
+		top := math.Inf(-1)
+		for _, o := range sp.Organisms {
+			top = math.Max(top, o.Fitness)
+		}
+		c := champs{id: sp.Id, quota: sp.ExpectedOffspring, sigs: map[string]bool{}}
+		for _, o := range sp.Organisms {
+			if o.Fitness == top {
+				c.sigs[genomeSig(o.Genotype)] = true
+			}
+		}
+		want = append(want, c)
+	}
 	if p := vhu.Guard(func() { err = ex.VerifReproduce(ctx, 1, qp.pop) }); p != "" {
 		return "reproduce panicked: " + p
 	}
@@ -474,7 +503,46 @@ func (c *quotaCase) epoch(st *quotaStats, seed int64) (bad string) {
 	if len(qp.pop.Organisms) != c.N {
 		bad += fmt.Sprintf("population has %d organisms after the epoch, population size %d; ", len(qp.pop.Organisms), c.N)
 	}
+	have := map[string]bool{}
+	for _, o := range qp.pop.Organisms {
+		have[genomeSig(o.Genotype)] = true
+	}
+	for _, w := range want {
+		found := false
+		for sg := range w.sigs {
+			found = found || have[sg]
+		}
+		st.champChecked++
+		if !found {
+			bad += fmt.Sprintf("champion: species %d had quota %d (> 5) after the preparation phase (%s), but the new generation holds no unmodified copy of (any of) its fittest organism(s); ",
+				w.id, w.quota, c.Mode)
+		}
+	}
 	return bad
+}
+
+// genomeSig is the genetic content of a genome (not its id) as a string: equal strings <=> equal in every genetic field
+func genomeSig(g *genetics.Genome) string {
+	var b strings.Builder
+	for _, t := range g.Traits {
+		fmt.Fprintf(&b, "t%d:%v|", t.Id, t.Params)
+	}
+	for _, n := range g.Nodes {
+		tr := -1
+		if n.Trait != nil {
+			tr = n.Trait.Id
+		}
+		fmt.Fprintf(&b, "n%d:%d:%d:%d|", n.Id, n.NeuronType, n.ActivationType, tr)
+	}
+	for _, x := range g.Genes {
+		tr := -1
+		if x.Link.Trait != nil {
+			tr = x.Link.Trait.Id
+		}
+		fmt.Fprintf(&b, "g%d:%d>%d:%x:%x:%v:%v:%d|", x.InnovationNum, x.Link.InNode.Id, x.Link.OutNode.Id, math.Float64bits(x.Link.ConnectionWeight),
+			math.Float64bits(x.MutationNum), x.IsEnabled, x.Link.IsRecurrent, tr)
+	}
+	return b.String()
 }
 
 func replayQuota(args []string) int {
@@ -558,6 +626,7 @@ func replayQuota(args []string) int {
 			}
 		}
 	}
+	rep.Extra["champion_copies_checked"] = st.champChecked
 	rep.Extra["behaviours_compared"] = st.matched
 	rep.Extra["behaviours_skipped_other_loss_vector"] = st.skippedLoss
 	rep.Extra["inputs"] = len(inputsSeen)
